@@ -21,7 +21,8 @@ macro_rules! lock_arm_u64 {
             let (mut w, spend) = world_with(SYM_LOCKS | SYM_COSTS | SYM_AMOUNTS);
             let v: u64 = kani::any();
             unsafe { crate::stubs::G.p_u64 = v };
-            let list = one_condition(&mut w.a, $op);
+            let arg = int_arg(&mut w.a, v);
+            let list = one_condition_args(&mut w.a, $op, &[arg]);
             let mut o = run_empty(&mut w, spend, list, $kind);
             check_outcome(&mut w, &mut o, $op, $ac(v));
             kani::cover!(o.err.is_none());
@@ -36,7 +37,8 @@ macro_rules! lock_arm_u32 {
             let (mut w, spend) = world_with(SYM_LOCKS | SYM_COSTS | SYM_AMOUNTS);
             let v: u32 = kani::any();
             unsafe { crate::stubs::G.p_u32 = v };
-            let list = one_condition(&mut w.a, $op);
+            let arg = int_arg(&mut w.a, v as u64);
+            let list = one_condition_args(&mut w.a, $op, &[arg]);
             let mut o = run_empty(&mut w, spend, list, $kind);
             check_outcome(&mut w, &mut o, $op, $ac(v));
             kani::cover!(o.err.is_none());
@@ -52,7 +54,8 @@ macro_rules! lock_arm_u64_nofail {
             let (mut w, spend) = world_with(SYM_LOCKS | SYM_COSTS | SYM_AMOUNTS);
             let v: u64 = kani::any();
             unsafe { crate::stubs::G.p_u64 = v };
-            let list = one_condition(&mut w.a, $op);
+            let arg = int_arg(&mut w.a, v);
+            let list = one_condition_args(&mut w.a, $op, &[arg]);
             let mut o = run_empty(&mut w, spend, list, $kind);
             check_outcome(&mut w, &mut o, $op, $ac(v));
             kani::cover!(o.err.is_none());
@@ -67,7 +70,8 @@ macro_rules! lock_arm_u32_nofail {
             let (mut w, spend) = world_with(SYM_LOCKS | SYM_COSTS | SYM_AMOUNTS);
             let v: u32 = kani::any();
             unsafe { crate::stubs::G.p_u32 = v };
-            let list = one_condition(&mut w.a, $op);
+            let arg = int_arg(&mut w.a, v as u64);
+            let list = one_condition_args(&mut w.a, $op, &[arg]);
             let mut o = run_empty(&mut w, spend, list, $kind);
             check_outcome(&mut w, &mut o, $op, $ac(v));
             kani::cover!(o.err.is_none());
@@ -92,7 +96,8 @@ arm_harness!(arm_lock_skip_relative, crate::arm::pa_skip_relative, 4, {
     // a relative lock with a negative argument is a tautology but still counts as a
     // relative condition (ephemeral rule)
     let (mut w, spend) = world_with(SYM_LOCKS | SYM_COSTS | SYM_AMOUNTS);
-    let list = one_condition(&mut w.a, 80);
+    let arg = neg_arg(&mut w.a);
+    let list = one_condition_args(&mut w.a, 80, &[arg]);
     let mut o = run_empty(&mut w, spend, list, K_SKIP_RELATIVE);
     check_outcome(&mut w, &mut o, 80, AC::SkipRelative);
     if o.err.is_none() {
@@ -110,7 +115,8 @@ arm_harness!(arm_value_reserve_fee, crate::arm::pa_reserve_fee, 4, {
     let (mut w, spend) = world_with(SYM_LOCKS | SYM_COSTS | SYM_AMOUNTS);
     let v: u64 = kani::any();
     unsafe { crate::stubs::G.p_u64 = v };
-    let list = one_condition(&mut w.a, 52);
+    let arg = int_arg(&mut w.a, v);
+    let list = one_condition_args(&mut w.a, 52, &[arg]);
     let mut o = run_empty(&mut w, spend, list, K_RESERVE_FEE);
     check_outcome(&mut w, &mut o, 52, AC::ReserveFee(v));
     kani::cover!(o.err.is_none());
@@ -146,7 +152,11 @@ arm_harness!(arm_value_create_coin, crate::arm::pa_create_coin, 36, {
         crate::stubs::G.p_u64 = amount;
         crate::stubs::G.p_n2 = hint;
     }
-    let list = one_condition(&mut w.a, 51);
+    let amount_arg = int_arg(&mut w.a, amount);
+    // (allocated unconditionally: a conditional allocation is a symbolic heap shape)
+    let memo_pair = w.a.new_pair(hint_node, NodePtr::NIL).unwrap();
+    let memo = if hint == NodePtr::NIL { NodePtr::NIL } else { memo_pair };
+    let list = one_condition_args(&mut w.a, 51, &[phn, amount_arg, memo]);
     let mut o = run_empty(&mut w, spend, list, K_CREATE_COIN);
     check_outcome(&mut w, &mut o, 51, AC::CreateCoin(amount, dup));
     if o.err.is_none() {
@@ -169,7 +179,8 @@ arm_harness!(arm_self_my_amount, crate::arm::pa_my_amount, 4, {
     let (mut w, spend) = world_with(SYM_LOCKS | SYM_COSTS | SYM_AMOUNTS);
     let v: u64 = kani::any();
     unsafe { crate::stubs::G.p_u64 = v };
-    let list = one_condition(&mut w.a, 73);
+    let arg = int_arg(&mut w.a, v);
+    let list = one_condition_args(&mut w.a, 73, &[arg]);
     let mut o = run_empty(&mut w, spend, list, K_MY_AMOUNT);
     check_outcome(&mut w, &mut o, 73, AC::MyAmount(v));
     kani::cover!(o.err.is_none());
@@ -182,7 +193,7 @@ arm_harness!(arm_self_my_coin_id, crate::arm::pa_my_coin_id, 36, {
     let id: [u8; 32] = kani::any();
     let n = w.a.new_atom(&id).unwrap();
     unsafe { crate::stubs::G.p_n1 = n };
-    let list = one_condition(&mut w.a, 70);
+    let list = one_condition_args(&mut w.a, 70, &[n]);
     let mut o = run_empty(&mut w, spend, list, K_MY_COIN_ID);
     let eq = id == w.coin_id;
     check_outcome(&mut w, &mut o, 70, AC::MyCoinId(eq));
@@ -196,7 +207,7 @@ arm_harness!(arm_self_my_parent_id, crate::arm::pa_my_parent_id, 36, {
     let id: [u8; 32] = kani::any();
     let n = w.a.new_atom(&id).unwrap();
     unsafe { crate::stubs::G.p_n1 = n };
-    let list = one_condition(&mut w.a, 71);
+    let list = one_condition_args(&mut w.a, 71, &[n]);
     let mut o = run_empty(&mut w, spend, list, K_MY_PARENT_ID);
     let eq = id == w.parent_bytes;
     check_outcome(&mut w, &mut o, 71, AC::MyParentId(eq));
@@ -210,7 +221,7 @@ arm_harness!(arm_self_my_puzzlehash, crate::arm::pa_my_puzzlehash, 36, {
     let id: [u8; 32] = kani::any();
     let n = w.a.new_atom(&id).unwrap();
     unsafe { crate::stubs::G.p_n1 = n };
-    let list = one_condition(&mut w.a, 72);
+    let list = one_condition_args(&mut w.a, 72, &[n]);
     let mut o = run_empty(&mut w, spend, list, K_MY_PUZZLEHASH);
     let eq = id == w.ph_bytes;
     check_outcome(&mut w, &mut o, 72, AC::MyPuzzlehash(eq));
@@ -246,7 +257,7 @@ macro_rules! node_set_arm {
             let already: bool = kani::any();
             let other = w.a.new_atom(&[0x44; 32]).unwrap();
             w.state.verif_view().$field.insert(if already { n } else { other });
-            let list = one_condition(&mut w.a, $op);
+            let list = one_condition_args(&mut w.a, $op, &[n]);
             let mut o = run_empty(&mut w, spend, list, $kind);
             check_outcome(&mut w, &mut o, $op, $ac(already));
             if o.err.is_none() {
@@ -269,7 +280,7 @@ arm_harness!(arm_ann_create_coin_ann, crate::arm::pa_create_coin_ann, 36, {
     let m: [u8; 3] = kani::any();
     let n = w.a.new_atom(&m).unwrap();
     unsafe { crate::stubs::G.p_n1 = n };
-    let list = one_condition(&mut w.a, 60);
+    let list = one_condition_args(&mut w.a, 60, &[n]);
     let mut o = run_empty(&mut w, spend, list, K_CREATE_COIN_ANN);
     check_outcome(&mut w, &mut o, 60, AC::CreateCoinAnn(false));
     if o.err.is_none() {
@@ -288,7 +299,7 @@ arm_harness!(arm_ann_create_puzzle_ann, crate::arm::pa_create_puzzle_ann, 4, {
     let m: [u8; 3] = kani::any();
     let n = w.a.new_atom(&m).unwrap();
     unsafe { crate::stubs::G.p_n1 = n };
-    let list = one_condition(&mut w.a, 62);
+    let list = one_condition_args(&mut w.a, 62, &[n]);
     let mut o = run_empty(&mut w, spend, list, K_CREATE_PUZZLE_ANN);
     check_outcome(&mut w, &mut o, 62, AC::CreatePuzzleAnn(false));
     if o.err.is_none() {
